@@ -16,7 +16,7 @@ pub struct SimHeap;
 const POISON: u8 = 0xDE;
 const CANARY: u8 = 0xC5;
 const CANARY_LEN: usize = 32;
-const TABLE_BITS: usize = 21;
+const TABLE_BITS: usize = 22;
 const TABLE_CAP: usize = 1 << TABLE_BITS;
 const QUARANTINE_CAP: usize = 1 << 16;
 const QUARANTINE_MAX_BYTES: usize = 256 << 20;
@@ -458,6 +458,12 @@ pub fn leaked_sizes(max: usize) -> Vec<(usize, usize)> {
         }
     }
     tmp[..n].to_vec()
+}
+
+/// live blocks known to the ledger (harness + library)
+pub fn ledger_used() -> usize {
+    let _g = lock();
+    unsafe { ledger().used }
 }
 
 pub fn lib_alloc_counts() -> (u64, u64) {
